@@ -604,3 +604,12 @@ func badLists(steps []Step) (rec, cb []int) {
 	}
 	return
 }
+
+// raceStorm: a storm in which every global is installed while its placeholder is in use - tracers and spans,
+// meters / instruments / measurements / registrations, Inject / Extract / Fields on the placeholder propagator,
+// Handle on the placeholder error handler - sized for the race detector.
+func raceStorm(r *vgen.Rand, i int) *Storm {
+	return &Storm{Seed: r.U64(), Meters: r.Range(1, 2), PreInsts: r.Range(1, 3), PreRegs: r.Range(1, 4), PreUnreg: r.Intn(2),
+		Creators: 1 + i%2, Recorders: 1 + i%2, Regs: 1, Unregs: 1, Tracers: r.Range(1, 2), Iter: r.Range(8, 16),
+		Installers: 1 + i%2, Delay: vgen.Pick(r, []int{0, 50, 300, 1500}), ErrH: true, WatchdogS: 60}
+}
